@@ -187,10 +187,14 @@ void do_op(W& w, const POp& p, int tid, RoundState& rs, std::vector<std::future<
     (void)dur;
     (void)futs;
     if constexpr (FAM == F_GUARDED || FAM == F_GUARDED_OPT || FAM == F_SHARED || FAM == F_SHARED_OPT) {
+        const size_t held_before = vrf::held_count();
         auto use = [&](auto&& h) {
             if (h) {
                 res.success = true;
                 excl_body(*h, p, res);
+            } else if (vrf::held_count() != held_before) {
+                // a failed attempt leaves nothing locked - not even until the null handle dies (nobody could acquire meanwhile)
+                vrf::violation("oracle:null_handle_holds_the_lock", "{\"op\":" + pop_json(p) + "}");
             }
             if (p.explicit_unlock) {
                 h.unlock();  // legal on any handle, including one whose try-acquisition failed
@@ -220,12 +224,21 @@ void do_op(W& w, const POp& p, int tid, RoundState& rs, std::vector<std::future<
         }
     }
     if constexpr (FAM == F_GUARDED || FAM == F_GUARDED_OPT || FAM == F_ORDERED) {
+        // the new value is a temporary, or (odd ids) a named lvalue that must still hold its value afterwards
         if (p.op == STORE) {
-            w.store(vrf::make_value(p.id));
+            if (p.id % 2) {
+                Cell v = vrf::make_value(p.id);
+                w.store(v);
+                vrf::still_holds(v, p.id, "store");
+            } else w.store(vrf::make_value(p.id));
             res.success = res.stored = true;
         }
         if (p.op == ASSIGN) {
-            w = vrf::make_value(p.id);
+            if (p.id % 2) {
+                Cell v = vrf::make_value(p.id);
+                w = v;
+                vrf::still_holds(v, p.id, "operator=");
+            } else w = vrf::make_value(p.id);
             res.success = res.stored = true;
         }
     }
@@ -284,10 +297,13 @@ void do_op(W& w, const POp& p, int tid, RoundState& rs, std::vector<std::future<
         }
     }
     if constexpr (FAM == F_SHARED || FAM == F_SHARED_OPT || FAM == F_ORDERED || FAM == F_DEFERRED) {
+        const size_t held_before_sh = vrf::held_count();
         auto use = [&](auto&& h) {
             if (h) {
                 res.success = true;
                 shared_body(*h, p, res, rs);
+            } else if (vrf::held_count() != held_before_sh) {
+                vrf::violation("oracle:null_handle_holds_the_lock", "{\"op\":" + pop_json(p) + "}");
             }
             if (p.explicit_unlock) {
                 h.unlock();
